@@ -67,6 +67,17 @@ class FitProperties(dict):
     Additional attributes:
     """
 
+    def __getitem__(self, key):
+        value = super(FitProperties, self).__getitem__(key)
+        if key in FP_DEFAULT and isinstance(
+                value, (list, dict, lmfit.Parameters)):
+            # Hand out settings by value (they are stored by value, too):
+            # an in-place modification of a mutable object (parameters,
+            # lists, dictionaries) by the caller must not silently change
+            # the stored settings or the module defaults.
+            value = copy.deepcopy(value)
+        return value
+
     def __setitem__(self, key, value):
         if key == "segment":
             # Since version 1.8.0, nanite uses an integer to identify
@@ -83,8 +94,10 @@ class FitProperties(dict):
                     and self["params_initial"] is not None
                     and value is not None):
                 # check for changed initial parameters
-                for pp in self["params_initial"]:
-                    s1 = self["params_initial"][pp].__getstate__()
+                params_stored = super(FitProperties, self).__getitem__(
+                    "params_initial")
+                for pp in params_stored:
+                    s1 = params_stored[pp].__getstate__()
                     s2 = value[pp].__getstate__()
                     if s1 != s2:
                         self.reset()
